@@ -581,4 +581,68 @@ for _p, _names in QUICK.items():
 # finish: the thorough tier lists them as not explored without running them again (MQV_TRY_ALL=1 runs them).
 # harness -> what happened
 KNOWN_UNFINISHED = {
+    "c03_bc_addstream_o0_n1": "no answer within 900 s",
+    "c04_bc_shared_all": "out of memory after 561 s at 2.0 M SSA steps",
+    "c05_bcfut_uni_addstream": "out of memory after 121 s at 0.4 M SSA steps",
+    "c05_mpfut_uni_addstream": "out of memory after 122 s at 0.4 M SSA steps",
+    "c06_bc_sibdrop_all": "no answer within 900 s",
+    "c06_bc_sibdrop_inclone": "out of memory after 162 s at 0.6 M SSA steps",
+    "c07_bc_two_o0": "no answer within 900 s",
+    "c07_mp_two_o2": "no answer within 900 s",
+    "c08_bc_blk00_senddrop": "no answer within 900 s",
+    "c08_bc_blk00_sibling": "no answer within 900 s",
+    "c08_bc_blk00_sibling_lap": "no answer within 900 s",
+    "c08_bc_blk00_sibling_n1": "no answer within 900 s",
+    "c08_bc_blk11_lonesender_lap": "no answer within 900 s",
+    "c08_bc_blk20_view": "no answer within 900 s",
+    "c08_bc_yield11_senddrop": "no answer within 900 s",
+    "c08_mp_blk00_lonesender_lap": "no answer within 900 s",
+    "c08_mp_blk00_send": "no answer within 900 s",
+    "c08_mp_blk00_sibling_n1": "no answer within 900 s",
+    "c08_mp_blk00_twodrops_lap": "out of memory after 755 s at 3.4 M SSA steps",
+    "c08_mp_blk11_send": "no answer within 900 s",
+    "c08_mp_busy_send": "no answer within 900 s",
+    "c08_mp_busy_sibling_n1": "no answer within 900 s",
+    "c08_mp_yield01_sibling": "no answer within 900 s",
+    "c10_bc_addadd_o1": "out of memory after 680 s at 1.7 M SSA steps",
+    "c10_bc_sole_o0": "no answer within 900 s",
+    "c11_bc_addrace_o1": "out of memory after 678 s at 1.8 M SSA steps",
+    "c11_bc_addrace_o2": "out of memory after 826 s at 2.5 M SSA steps",
+    "c11_bc_bothhandles_o1": "out of memory after 612 s at 2.3 M SSA steps",
+    "c11_bc_drop_last_o0": "no answer within 900 s",
+    "c11_bc_droprace_o1": "out of memory after 710 s",
+    "c12_bc_consumers_o1": "no answer within 900 s",
+    "c12_bc_senders_o0": "out of memory after 898 s at 3.6 M SSA steps",
+    "c12_mp_consumers_o1": "no answer within 900 s",
+    "c14_bc10_poll_vs_send": "no answer within 900 s",
+    "c14_bc_poll_vs_droptx": "no answer within 900 s",
+    "c14_bc_poll_vs_send": "no answer within 900 s",
+    "c14_bc_send_vs_poll": "no answer within 900 s",
+    "c14_bc_send_vs_upoll": "no answer within 900 s",
+    "c14_bc_two_polls": "no answer within 900 s",
+    "c14_mp11_send_vs_poll": "no answer within 900 s",
+    "c14_mp_poll_vs_send": "no answer within 900 s",
+    "c14_mp_send_vs_droprx": "out of memory after 550 s at 5.4 M SSA steps",
+    "c14_mp_send_vs_poll": "no answer within 900 s",
+    "c14s_bc_droptx_o1_vs_poll": "out of memory after 137 s at 0.3 M SSA steps",
+    "c14s_bc_poll_vs_droptx": "out of memory after 609 s at 2.8 M SSA steps",
+    "c14s_bc_poll_vs_send": "no answer within 900 s",
+    "c14s_bc_send_vs_poll": "out of memory after 315 s at 1.4 M SSA steps",
+    "c14s_mp_droprx_o1_vs_send": "out of memory after 135 s at 0.4 M SSA steps",
+    "c14s_mp_poll_vs_send": "no answer within 900 s",
+    "c14s_mp_send_o1_vs_poll": "out of memory after 165 s at 0.8 M SSA steps",
+    "c14s_mp_send_vs_droprx": "out of memory after 269 s at 1.8 M SSA steps",
+    "c14s_mp_send_vs_poll": "out of memory after 305 s at 1.4 M SSA steps",
+    "c15_bc10_hist": "out of memory after 177 s at 0.7 M SSA steps",
+    "c15_bc_hist": "out of memory after 156 s at 0.6 M SSA steps",
+    "c15_mp_hist": "out of memory after 158 s at 0.7 M SSA steps",
+    "c16_protocol_d2_o0": "no answer within 900 s",
+    "c16_protocol_idle_o0": "no answer within 900 s",
+    "c16_protocol_o0": "no answer within 900 s",
+    "c16_protocol_o1": "no answer within 900 s",
+    "c16_scan_vs_add": "no answer within 900 s",
+    "c16_scan_vs_remove": "no answer within 900 s",
+    "c16_wq_drop_ptrwin": "no answer within 900 s",
+    "c17_churn_r2": "no answer within 900 s",
+    "c17_churn_r3": "no answer within 900 s",
 }
